@@ -18,7 +18,7 @@
 (***************************************************************************)
 EXTENDS JsonFieldSet, Json
 
-CONSTANTS Type, MaxMembers
+CONSTANTS MaxT, MaxB, MaxX     \* bound (number of members) per target type; 0 switches a type off
 
 M(n, v) == [n |-> n, v |-> v, sub |-> <<>>]
 MO(n, sub) == [n |-> n, v |-> "obj", sub |-> sub]
@@ -42,22 +42,40 @@ AlphabetB ==
   \cup {M("f63", "null"), M("f64", "null")}
   \cup UNION {{M("a" \o ToString(i), "int"), M("b_" \o ToString(i), "int")} : i \in {0, 62, 63, 64, 65}}
   \cup {M("a_64", "null")}
-Alphabet == CASE Type = "T" -> AlphabetT [] Type = "X" -> AlphabetX [] Type = "B" -> AlphabetB
+Alphabet(t) == CASE t = "T" -> AlphabetT [] t = "X" -> AlphabetX [] t = "B" -> AlphabetB
+MaxMembers(t) == CASE t = "T" -> MaxT [] t = "X" -> MaxX [] t = "B" -> MaxB
+Types == (IF MaxT > 0 THEN {"T"} ELSE {}) \cup (IF MaxB > 0 THEN {"B"} ELSE {}) \cup (IF MaxX > 0 THEN {"X"} ELSE {})
 
-VARIABLE ms
-Init == ms = <<>>
-Next == Len(ms) < MaxMembers /\ \E m \in Alphabet : ms' = Append(ms, m)
+\* Type: the target message type of this document (one initial state per type)
+VARIABLES Type, ms
+Init == Type \in Types /\ ms = <<>>
+Next == Len(ms) < MaxMembers(Type) /\ (\E m \in Alphabet(Type) : ms' = Append(ms, m)) /\ Type' = Type
 
 Fmts == {"json", "text"}
 Ok(fmt, du) == LET r == Decode(fmt, Type, ms, 0, du) IN r.ok /\ ~r.na
 Unique == \A fmt \in Fmts : Ok(fmt, FALSE) => SingularOnce(fmt, Type, ms) /\ OneofOnce(fmt, Type, ms)
 JsonStrict == Ok("json", FALSE) =>
                 \A i, j \in 1..Len(ms) : i # j => Lookup("json", Type, ms[i].n).num # Lookup("json", Type, ms[j].n).num
+RECURSIVE AllKnown(_, _, _)
+AllKnown(fmt, t, q) == \A i \in 1..Len(q) :
+                         LET f == Lookup(fmt, t, q[i].n) IN
+                         f # NoField /\ (f.vk = "msg" /\ q[i].v = "obj" => AllKnown(fmt, f.sub, q[i].sub))
 Discard == \A fmt \in Fmts :
              /\ (Ok(fmt, FALSE) => Ok(fmt, TRUE))
-             /\ ((\A i \in 1..Len(ms) : Lookup(fmt, Type, ms[i].n) # NoField) => Ok(fmt, FALSE) = Ok(fmt, TRUE))
+             /\ (AllKnown(fmt, Type, ms) => Ok(fmt, FALSE) = Ok(fmt, TRUE))
              /\ (Ok(fmt, TRUE) => SingularOnce(fmt, Type, ms) /\ OneofOnce(fmt, Type, ms))
-NestLemma == ms # <<>> \/
+\* the three laws above with the four decoder runs shared (used by the checks for speed)
+Laws == LET jf == Decode("json", Type, ms, 0, FALSE)  jt == Decode("json", Type, ms, 0, TRUE)
+            tf == Decode("text", Type, ms, 0, FALSE)  tt == Decode("text", Type, ms, 0, TRUE)
+            ok(r) == r.ok /\ ~r.na
+            uniq(fmt) == SingularOnce(fmt, Type, ms) /\ OneofOnce(fmt, Type, ms)
+        IN /\ (ok(jf) \/ ok(jt) => uniq("json"))
+           /\ (ok(tf) \/ ok(tt) => uniq("text"))
+           /\ (ok(jf) => \A i, j \in 1..Len(ms) : i # j => Lookup("json", Type, ms[i].n).num # Lookup("json", Type, ms[j].n).num)
+           /\ (ok(jf) => ok(jt)) /\ (ok(tf) => ok(tt))
+           /\ (AllKnown("json", Type, ms) => ok(jf) = ok(jt))
+           /\ (AllKnown("text", Type, ms) => ok(tf) = ok(tt))
+NestLemma == ms # <<>> \/ Type # "T" \/
              \A fmt \in Fmts : \A lim \in 1..4 : \A d \in 1..6 :
                 Decode(fmt, "T", Chain(d), lim, FALSE).ok = NestAccepted(d, lim)
 
@@ -67,7 +85,7 @@ Emit == \A fmt \in Fmts : \A du \in {0, 1} :
 NestCase(fmt, via, d, lim) == [op |-> "nest", fmt |-> fmt, via |-> via, d |-> d, lim |-> lim]
 Vias(fmt) == IF fmt = "json" THEN {"one", "oneof", "list", "map", "skip", "value"} ELSE {"one", "oneof", "list", "map", "skip"}
 Depths(lim) == IF lim = 0 THEN {1, 9999, 10000, 10001, 10002, 20003} ELSE {1, lim - 1, lim, lim + 1, lim + 2, 2 * lim + 2, 2 * lim + 3} \ {0}
-EmitNest == ms # <<>> \/ \A fmt \in Fmts : \A via \in Vias(fmt) : \A lim \in {0, 1, 2, 3, 7} : \A d \in Depths(lim) :
+EmitNest == ms # <<>> \/ Type # "T" \/ \A fmt \in Fmts : \A via \in Vias(fmt) : \A lim \in {0, 1, 2, 3, 7} : \A d \in Depths(lim) :
               PrintT("@@" \o ToJson(NestCase(fmt, via, d, lim) @@ [exp |-> ExpectUniq(NestCase(fmt, via, d, lim))]))
 EmitAll == Emit /\ EmitNest
 =============================================================================
